@@ -417,6 +417,9 @@ def known_match(entries, sig):
         sigs = e.get('signatures') or [e.get('signature')]
         if sig in sigs:
             return e
+        import fnmatch
+        if any(p and ('*' in p) and fnmatch.fnmatchcase(sig, p) for p in sigs):
+            return e
     return None
 
 
